@@ -323,4 +323,11 @@ class SympyCondition(Condition):
         key_str = str(self.keys[0])
         if key_str not in args.meas_key_id_map:
             raise ValueError(f'Key "{key_str}" not in QasmArgs.meas_key_id_map.')
-        return f'{args.meas_key_id_map[key_str]}=={self.expr.rhs}'
+        reg = args.meas_key_id_map[key_str]
+        if reg not in args.meas_key_bitcount:
+            raise ValueError(f'Key "{reg}" not in QasmArgs.meas_key_bitcount.')
+        value, n = int(self.expr.rhs), args.meas_key_bitcount[reg]
+        if 0 <= value < 2**n:
+            # Cirq's first measured qubit is the most significant bit, creg bit 0 is the least.
+            value = int(format(value, f'0{n}b')[::-1], 2)
+        return f'{reg}=={value}'
